@@ -272,7 +272,9 @@ class HeaderPacketReceiver(Elaboratable):
         #
 
         # Keep track of how many header received acknowledgements (LGOODs) we need to send.
-        acks_to_send      = Signal(range(self._buffer_count + 1), init=1)
+        # (The number of pending LGOODs is bounded by our link partner's four transmit buffers,
+        #  rather than by our own buffer count; as we re-advertise buffers while LGOODs wait.)
+        acks_to_send      = Signal(range(max(self._buffer_count, 4) + 1), init=1)
         enqueue_ack       = Signal()
         dequeue_ack       = Signal()
 
